@@ -3,12 +3,13 @@
 import json, os, shutil, sys
 HERE = os.path.dirname(os.path.dirname(os.path.abspath(__file__)))
 prop, k, summary, trigger = sys.argv[1:5]
+tag = os.environ.get("SEED_ROUND", "")  # e.g. r2 -> seeded/C03-r2-1
 src = f"/tmp/wt-{prop}/SEED/{k}"
-dst = os.path.join(HERE, "seeded", f"{prop}-{k}")
+dst = os.path.join(HERE, "seeded", f"{prop}-{tag + '-' if tag else ''}{k}")
 os.makedirs(dst, exist_ok=True)
 for f in ("patch.diff", "demo.py", "notes.md"):
     shutil.copy(os.path.join(src, f), os.path.join(dst, f))
-m = {"id": f"{prop}-{k}", "property": prop, "summary": summary, "trigger": trigger,
+m = {"id": os.path.basename(dst), "property": prop, "summary": summary, "trigger": trigger,
      "origin": "fresh sub-agent given only the property text and a scratch worktree"}
 json.dump(m, open(os.path.join(dst, "meta.json"), "w"), indent=1, sort_keys=True)
 print("imported", dst)
